@@ -17,7 +17,7 @@ RULE = ('configs: generated mapping files (1..6 custom protobuf fields varint/st
         'cmd/goflow2/mapping.yaml (re-read from the repository on every run, translated to the abstract configuration by yaml_to_toks) '
         'must load and behave like the model compiled from its own content; edge files: 20 hand-written mapping files at the edges of what the loader accepts (unknown renderers / fields / keys, unmappable custom types, Go names, virtual fields, duplicate indices ...): accepted or rejected as the model does. '
         'binary: cmd/goflow2 built from the working tree and run with generated mapping files (-mapping, json, file transport, one worker): every line of its output file == format_json of the model for the datagrams sent to its socket. '
-        'non-trivial = a message carrying a custom field or produced under a matching mapping; distinct by input')
+        'non-trivial = a message carrying a custom field or produced under a matching mapping, or a GetBytes call for at least one bit of a non-empty buffer; distinct by input')
 TRUSTED = ['Coq 8.16.1 kernel (coqc), vm_compute in the finite GetBytes theorem', 'extraction + ocaml/main.ml glue',
            'Go harness harness/cfg.go, fmt.go; bin/engine.py; the Python YAML printer of this module',
            'modelled, not verified: producer/proto/config_impl.go, reflect.go, producer_packet.go (layer mapping hook)']
@@ -382,6 +382,10 @@ def doc_examples(repo):
 
 
 def nontrivial(inp, out):
+    if inp.startswith('getbytes'):
+        # a GetBytes call that asks for at least one bit of a non-empty buffer
+        f = inp.split(' ')
+        return len(f) >= 4 and f[1] != '=' and int(f[3][1:], 16) > 1000
     # a custom field (number >= 1000 = 0x3e8) shows up in some message
     return any(int(a[1:], 16) >= 1000 for st in split_steps(out) for m in step_msgs(st)[2] for a, b in m
                if a.startswith('#'))
